@@ -55,6 +55,7 @@ const LETTERS: [&str; 5] = ["create", "drop oldest handle", "drop newest handle"
 const NL: u64 = 5;
 const STALE_CASES: u64 = 5;
 const E2_CASES: u64 = 6;
+const E2N_CASES: u64 = 4;
 
 fn depth(tier: Tier) -> usize {
 	tier.pick(7, 9)
@@ -77,7 +78,7 @@ impl Check for C08 {
 		Level::ModelChecking
 	}
 	fn num_cases(&self, _tier: Tier) -> u64 {
-		KINDS.len() as u64 * 3 * NL + STALE_CASES + E2_CASES
+		KINDS.len() as u64 * 3 * NL + STALE_CASES + E2_CASES + E2N_CASES
 	}
 	fn describe(&self, tier: Tier, idx: u64) -> String {
 		let g = KINDS.len() as u64 * 3 * NL;
@@ -125,6 +126,10 @@ impl Check for C08 {
 	}
 	fn run_case(&self, tier: Tier, idx: u64, ctx: &mut Ctx) {
 		let g = KINDS.len() as u64 * 3 * NL;
+		if idx >= g + STALE_CASES + E2_CASES {
+			e2_nested(tier, idx - g - STALE_CASES - E2_CASES, ctx);
+			return;
+		}
 		if idx >= g + STALE_CASES {
 			e2_create_vs_remove(tier, idx - g - STALE_CASES, ctx);
 			return;
@@ -627,6 +632,9 @@ fn stale_ids(which: u64, ctx: &mut Ctx) {
 // E2: the gameplay thread's create path || the audio thread's remove-and-add step
 
 fn e2_name(i: u64) -> String {
+	if i >= E2_CASES {
+		return e2n_name(i - E2_CASES);
+	}
 	let kind = ["sounds on the main track (ResourceStorage)", "clocks (SelfReferentialResourceStorage)", "sub-tracks (ResourceStorage)"][(i % 3) as usize];
 	let cap = [1, 2][((i / 3) % 2) as usize];
 	format!("{} capacity {}: game(create; create) || audio(2 callbacks, the first removes a finished/dropped resource), then a sequential epilogue", kind, cap)
@@ -876,6 +884,183 @@ fn e2_create_vs_remove(tier: Tier, which: u64, ctx: &mut Ctx) {
 	ctx.transitions += stats.schedules * stats.max_points as u64;
 	ctx.count(&format!("e2_schedules[{} cap {}]", kname, cap), stats.schedules);
 	ctx.count(&format!("e2_max_points[{} cap {}]", kname, cap), stats.max_points as u64);
+	ctx.count("e2_capped", stats.capped as u64);
+	for o in outcomes {
+		ctx.outcome(o);
+		ctx.state(o);
+	}
+	ctx.nontrivial_extra += nontrivial;
+	for (s, d) in fails {
+		ctx.fail(s, d);
+	}
+}
+
+// E2 (nested): the gameplay thread creates something *under* a track and drops that track's handle, while the audio
+// thread evaluates the track's removal predicate. A resource whose handle is alive must not be removed.
+fn e2n_name(i: u64) -> String {
+	[
+		"nested: game(child = parent.add_sub_track(); drop(parent)) || audio(2 callbacks); the child must stay wired to the output",
+		"nested, persistent parent: game(child = parent.add_sub_track(); drop(parent)) || audio(2 callbacks)",
+		"nested, persistent parent: game(sound = parent.play(loop); drop(parent)) || audio(2 callbacks); the sound must play on",
+		"nested, depth 2: game(g = child.add_sub_track(); drop(child); drop(parent)) || audio(2 callbacks)",
+	][i as usize]
+		.to_string()
+}
+
+fn e2_nested(tier: Tier, which: u64, ctx: &mut Ctx) {
+	use crate::sched::{self, Config, Exec};
+	use std::sync::Mutex;
+	fn filt(s: &'static str) -> bool {
+		s.starts_with("res.") || s.starts_with("rtrb.") || s.starts_with("arena.") || s.ends_with(".removed.load") || s.ends_with(".removed.store")
+	}
+	let cfg = Config { filter: filt, horizon: 3000, max_spin_rounds: 8, record_sites: true, ..Default::default() };
+	#[derive(Debug, Clone, Default, PartialEq)]
+	struct Obs {
+		created: Option<bool>,
+		panics: Vec<String>,
+		epilogue: Vec<String>,
+	}
+	enum Kept {
+		Track(TrackHandle),
+		Sound(kira::sound::static_sound::StaticSoundHandle),
+		Nothing,
+	}
+	let mut body = |prefix: &[u8]| -> (sched::RunResult, Obs) {
+		let mut m = rig::manager(8, 2, rig::caps(4), MainTrackBuilder::new());
+		let mut buf = vec![0.0f32; 8];
+		let persist = which == 1 || which == 2;
+		let mut parent = m.add_sub_track(TrackBuilder::new().persist_until_sounds_finish(persist)).expect("parent");
+		let child = if which == 3 { Some(parent.add_sub_track(TrackBuilder::new()).expect("child")) } else { None };
+		rig::callback(&mut m, &mut buf, 2, 2);
+		let mut renderer = m.backend_mut().renderer.take().unwrap();
+		let obs = Arc::new(Mutex::new(Obs::default()));
+		let back = Arc::new(Mutex::new(None));
+		let keep: Arc<Mutex<Option<Kept>>> = Arc::new(Mutex::new(None));
+		let mut ex = Exec::begin(&cfg, prefix);
+		{
+			let (obs, keep) = (obs.clone(), keep.clone());
+			ex.spawn("game", move || {
+				let kept = match which {
+					0 | 1 => match parent.add_sub_track(TrackBuilder::new()) {
+						Ok(c) => Kept::Track(c),
+						Err(_) => Kept::Nothing,
+					},
+					2 => match parent.play(dc_loop()) {
+						Ok(s) => Kept::Sound(s),
+						Err(_) => Kept::Nothing,
+					},
+					_ => {
+						let mut child = child.unwrap();
+						let r = match child.add_sub_track(TrackBuilder::new()) {
+							Ok(c) => Kept::Track(c),
+							Err(_) => Kept::Nothing,
+						};
+						drop(child);
+						r
+					}
+				};
+				drop(parent);
+				obs.lock().unwrap().created = Some(!matches!(kept, Kept::Nothing));
+				*keep.lock().unwrap() = Some(kept);
+			});
+		}
+		{
+			let (obs, back) = (obs.clone(), back.clone());
+			ex.spawn("audio", move || {
+				let mut buf = [0.0f32; 4];
+				for _ in 0..2 {
+					let rep = rig::callback_on(&mut renderer, &mut buf, 2, 2);
+					if let Some(p) = rep.panic {
+						obs.lock().unwrap().panics.push(p);
+						break;
+					}
+					if rep.allocs + rep.frees > 0 {
+						obs.lock().unwrap().panics.push(format!("allocation/free on the audio thread (allocs {} frees {})", rep.allocs, rep.frees));
+					}
+				}
+				*back.lock().unwrap() = Some(renderer);
+			});
+		}
+		let res = ex.run();
+		let mut o = obs.lock().unwrap().clone();
+		let kept = keep.lock().unwrap().take();
+		let renderer = back.lock().unwrap().take();
+		if let (Some(kept), Some(r), true) = (kept, renderer, o.panics.is_empty()) {
+			m.backend_mut().renderer = Some(r);
+			let mut buf = vec![0.0f32; 8];
+			for _ in 0..2 {
+				rig::callback(&mut m, &mut buf, 2, 2);
+			}
+			let audible = |m: &mut Manager| -> bool {
+				let mut buf = vec![0.0f32; 8];
+				rig::callback(m, &mut buf, 4, 2);
+				buf.iter().any(|x| x.abs() > 0.2)
+			};
+			match kept {
+				Kept::Track(mut t) => {
+					// the handle is alive: the track must still be part of the tree, i.e. a sound played on it is heard
+					match t.play(dc_loop()) {
+						Ok(mut s) => {
+							rig::callback(&mut m, &mut buf, 2, 2);
+							if !audible(&mut m) {
+								o.epilogue.push("a track whose handle is alive was removed together with its parent (a sound played on it is not heard)".into());
+							}
+							s.stop(instant());
+						}
+						Err(e) => o.epilogue.push(format!("play on the surviving track failed: {:?}", e)),
+					}
+					drop(t);
+				}
+				Kept::Sound(mut s) => {
+					if !audible(&mut m) {
+						o.epilogue.push("a sound on a persistent track was cut off when the track's handle was dropped".into());
+					}
+					s.stop(instant());
+				}
+				Kept::Nothing => {}
+			}
+			for _ in 0..3 {
+				rig::callback(&mut m, &mut buf, 2, 2);
+			}
+			// everything is dropped / stopped now: all slots must be free again
+			let mut made = vec![];
+			for _ in 0..4 {
+				if let Ok(t) = m.add_sub_track(TrackBuilder::new()) {
+					made.push(t);
+				}
+			}
+			if made.len() != 4 {
+				o.epilogue.push(format!("only {} of 4 sub-track slots reusable after everything was dropped", made.len()));
+			}
+		}
+		(res, o)
+	};
+	let mut outcomes = std::collections::HashSet::new();
+	let mut fails: Vec<(String, String)> = vec![];
+	let mut nontrivial = 0u64;
+	let kname = format!("nested #{}", which);
+	let mut judge = |res: &sched::RunResult, o: &Obs, choices: &[u8]| {
+		outcomes.insert(hash64(&format!("{:?}", o)));
+		if choices.iter().any(|c| *c != 0) {
+			nontrivial += 1;
+		}
+		for p in res.panics.iter().chain(o.panics.iter()) {
+			fails.push((format!("panic while a nested create races the parent's removal: {} :: E2 {}", p, kname), sched::fmt_schedule(res)));
+		}
+		for e in &o.epilogue {
+			fails.push((format!("{} :: E2 {}", e, kname), format!("{:?}; {}", o, sched::fmt_schedule(res))));
+		}
+	};
+	let stats = sched::explore(tier.pick(Some(2), Some(3)), 3_000_000, &mut body, &mut judge);
+	if let Some(e) = stats.error {
+		ctx.fail(format!("MACHINERY: scheduler error: {}", e), "");
+	}
+	ctx.schedules += stats.schedules;
+	ctx.evals += stats.schedules;
+	ctx.traces += stats.schedules;
+	ctx.transitions += stats.schedules * stats.max_points as u64;
+	ctx.count(&format!("e2_schedules[{}]", kname), stats.schedules);
+	ctx.count(&format!("e2_max_points[{}]", kname), stats.max_points as u64);
 	ctx.count("e2_capped", stats.capped as u64);
 	for o in outcomes {
 		ctx.outcome(o);
